@@ -322,9 +322,22 @@ def check(run):
             run.violation("R2", at.where, f"Path.apply_transform carries `{k}` across the transform unchanged although it is not invariant under "
                                           f"affine maps of the vertices", key=key_of("C14-R2", "copied", k))
     # discrete must be transported by the same matrix
-    txt = ast.unparse(at.node)
-    ok = "['discrete'] = [tf.transform_points(d, matrix=transform) for d in self.discrete]" in txt
-    run.instance("R2", at.where, "`discrete` is transported by the same matrix", ok)
+    from ..provenance import Prov as _Prov
+    pat = _Prov(ix, at)
+    mpar = at.params[1] if len(at.params) > 1 else "transform"
+    dstores = [st for st in ast.walk(at.node) if isinstance(st, ast.Assign) and isinstance(st.targets[0], ast.Subscript)
+               and isinstance(st.targets[0].slice, ast.Constant) and st.targets[0].slice.value == "discrete"]
+    ok = None if not dstores else True
+    for st in dstores:
+        t = pat.canon(st.value, st)
+        m_ = re.fullmatch(r"\[trimesh\.transformations\.transform_points\((\w+), (?:matrix=)?P_%s\) for (\w+) in P_self\.discrete\]" % mpar, t)
+        ok = ok and m_ is not None and m_.group(1) == m_.group(2)
+    if ok is None:
+        # `discrete` is not stored by the function at all: whether it survives is the business of the simulation above
+        run.instance("R2", at.where, "`discrete` is not re-stored by apply_transform", True, nontrivial=False)
+        ok = True
+    else:
+        run.instance("R2", at.where, "`discrete` is transported by the same matrix", ok)
     if not ok:
         run.violation("R2", at.where, "`discrete` is no longer mapped through the transform before being kept", key=key_of("C14-R2", "discrete"))
     # ---- R3
